@@ -288,6 +288,9 @@ pub struct Script {
     /// autocompletion that is "not actually binding in any way", so it may say anything about a command that
     /// implements both forms
     pub meta_hint: u8,
+    /// a query handler written with a per-item helper: `finish()` is called after every datum (result dropped) and
+    /// once more at the end, whose result is returned - the outcome must be the same as with a single `finish()`
+    pub finish_each: bool,
 }
 
 impl Script {
@@ -399,6 +402,9 @@ impl Command<Dev> for Script {
                 }
                 for v in &self.emit {
                     put_val(&mut resp, v);
+                    if self.finish_each {
+                        let _ = resp.finish();
+                    }
                 }
                 resp.finish()
             })
